@@ -168,6 +168,16 @@ class Exec:
         w.default_group = None
         w.eval_hook = None
         w.armed = True
+        if k.get("locale"):
+            # the host application activated a locale whose decimal point is a comma and whose
+            # thousands separator is a dot (de_DE, it_IT, ...).  No such locale is installed in
+            # the sandbox; what locale-aware conversions consult is replaced instead.
+            import locale
+
+            conv = dict(locale.localeconv())
+            conv.update({"decimal_point": ",", "thousands_sep": ".", "grouping": [3, 3, 0], "mon_decimal_point": ",", "mon_thousands_sep": "."})
+            locale.localeconv = lambda: dict(conv)
+            self.note("locale_with_decimal_comma")
 
     def compute_ref(self):
         """Sequential reference session(s): own evaluator, own aggregator, own directory, no
@@ -287,6 +297,19 @@ class Exec:
                     raise
                 if sess.get("spec_variant"):
                     self.note("accepted_reordered_setup")
+                if sess.get("recreate"):
+                    # the script builds its aggregator a second time on the same file (e.g.
+                    # `agg = Panoptica_Aggregator(...)` executed again); the first object is
+                    # dropped before or after the second one exists
+                    if sess["recreate"] == "drop_first":
+                        del a
+                        a = agg_mod.Panoptica_Aggregator(ev, target, log_times=bool(f.get("log_times")))
+                    else:
+                        a2 = agg_mod.Panoptica_Aggregator(ev, target, log_times=bool(f.get("log_times")))
+                        del a
+                        a = a2
+                        del a2
+                    self.note("aggregator_recreated")
                 aggs.append(a)
             if sess.get("main_stat"):
                 # the parent builds a statistics object before handing work to its workers ...
@@ -327,6 +350,22 @@ class Exec:
                 self._check_stat(st, fname, before, after)
                 if when == "after" and list(st.subjectnames) != after:
                     self.v("names", f"make_statistic after all workers returned lists {list(st.subjectnames)!r}, the file holds {after!r}")
+                elif when == "after" and self.plan.get("check_loader") and after:
+                    # the parent's own statistics object, judged like the loader's: the model is
+                    # the text of the file it was built from
+                    rows, err = self.data_rows(fname)
+                    ref = self.ref[bool(self.plan["files"][fname].get("log_times"))]
+                    if err is None and rows and rows[0] == ref["header"] and all(len(r) == len(rows[0]) for r in rows):
+                        cells = [(g, m) for g in ref["groups"] for m in ref["keys"]]
+                        table = {r[0]: {g: {} for g in ref["groups"]} for r in rows[1:]}
+                        for r in rows[1:]:
+                            for (g, m), fld in zip(cells, r[1:]):
+                                try:
+                                    table[r[0]][g][m] = _field_value(fld)
+                                except ValueError:
+                                    table[r[0]][g][m] = "skip"
+                        self.query_history(st, MODS["st"], fname, [r[0] for r in rows[1:]], table, ref, rows, second_object=False)
+                        self.note("main_stat_query_history")
             except SimInterrupt:
                 raise
             except Exception as e:  # noqa: BLE001
@@ -358,6 +397,16 @@ class Exec:
                 fp = (model.array_fingerprint(pred), model.array_fingerprint(ref))
                 t.ctx["subject"] = subj
                 s.point("op.eval", "")
+                if plan["inputs"][ik].get("poison"):
+                    # user code that guards each call: a malformed subject fails, the others go on
+                    try:
+                        a.evaluate(pred, ref, subj)
+                        self.note("poison_evaluation_did_not_raise")
+                    except SimInterrupt:
+                        raise
+                    except Exception:  # noqa: BLE001
+                        self.note("poison_evaluation_raised")
+                    continue
                 a.evaluate(pred, ref, subj)
                 if (model.array_fingerprint(pred), model.array_fingerprint(ref)) != fp:
                     self.v("input_unmodified", f"aggregator.evaluate changed the caller's arrays (subject {subj!r})")
@@ -747,7 +796,7 @@ class Exec:
         self.query_history(st, st_mod, fname, file_names, table, ref, rows)
 
     # a seeded history of queries on one statistics object, each judged against the model
-    def query_history(self, st, st_mod, fname, file_names, table, ref, rows):
+    def query_history(self, st, st_mod, fname, file_names, table, ref, rows, second_object=True):
         rng = self.rng_fault
 
         def stats(vals):
@@ -942,7 +991,7 @@ class Exec:
                     if rng.random() < 0.3:
                         queries.append((q_get, (g, m, True)))
             for m in ref["keys"]:
-                if rng.random() < 0.5:
+                if rng.random() < 0.5 and tag != "Bperm":  # the order of groups follows the columns
                     queries.append((q_across_raw, (m,)))
             queries.append((q_across, ()))
             queries.append((q_dict, ()))
@@ -953,7 +1002,7 @@ class Exec:
         # missing-value pattern, other numbers (every finite field x of the file becomes
         # x/2 + 1.25); its model is the parsed text of the derived file.  Queries on the two
         # objects are interleaved, so state shared between objects shows.
-        if complete and len(rows) >= 2 and rng.random() < 0.6:
+        if second_object and complete and len(rows) >= 2 and rng.random() < 0.6:
             import csv
 
             cells = [(g, m) for g in ref["groups"] for m in ref["keys"]]
@@ -968,10 +1017,29 @@ class Exec:
                     nr.append(f)
                     table_b[r[0]][g][m] = _field_value(f) if table[r[0]][g][m] != "skip" else "skip"
                 rows_b.append(nr)
+            # ... and, in half of the cases, with its columns in another order (any order of the
+            # "<group>-<metric>" columns is a valid table): metric order shuffled inside each
+            # group's block, or all columns shuffled
+            header_b = list(rows[0])
+            layout = rng.choice(["same", "same", "block", "full"])
+            if layout != "same" and len(cells) > 1:
+                idx = list(range(len(cells)))
+                if layout == "full":
+                    rng.shuffle(idx)
+                else:
+                    nk = len(ref["keys"])
+                    idx = []
+                    for gi in range(len(ref["groups"])):
+                        blk = list(range(gi * nk, (gi + 1) * nk))
+                        rng.shuffle(blk)
+                        idx.extend(blk)
+                header_b = [rows[0][0]] + [rows[0][1 + i] for i in idx]
+                rows_b = [[r[0]] + [r[1 + i] for i in idx] for r in rows_b]
+                self.note("second_table_columns_" + layout)
             pb = self.path("other_" + fname)
             with open(pb, "w", encoding="utf8", newline="") as fh:
                 wr = csv.writer(fh, delimiter="\t", lineterminator="\n")
-                wr.writerow(rows[0])
+                wr.writerow(header_b)
                 for r in rows_b:
                     wr.writerow(r)
             try:
@@ -980,7 +1048,7 @@ class Exec:
                 self.v("summary", f"loading a second table of the same shape raised {type(e).__name__}: {str(e)[:120]}")
                 st_b = None
             if st_b is not None:
-                qb, _, _ = make_queries(st_b, file_names, table_b, "B")
+                qb, _, _ = make_queries(st_b, file_names, table_b, "B" if layout == "same" else "Bperm")
                 queries = queries + qb
                 self.note("two_objects_interleaved")
         self._qn = 0
@@ -991,7 +1059,7 @@ class Exec:
                 fn(*a)
         self.note("query_history_len", self._qn)
         # order independence: the same rows in another order give the same summaries
-        if complete and len(rows) > 2:
+        if second_object and complete and len(rows) > 2:
             import csv
 
             perm = rows[1:]
@@ -1134,7 +1202,8 @@ def execute(plan: dict, root: str) -> dict:
     ex.load_ref()
     used = {op[3] for ph in plan["phases"] for sess in ph["sessions"] for ops in sess["tasks"] for op in ops if op[0] == "eval"}
     phases = plan["phases"]
-    if ex.invalid & used:
+    poison = {k for k, v in plan["inputs"].items() if isinstance(v, dict) and v.get("poison")}
+    if (ex.invalid - poison) & used:
         # the sequential reference evaluation itself raises for a generated input: the plan is
         # outside every property's quantifier (valid evaluations); no verdict
         ex.note("skipped_invalid_generated_input")
